@@ -22,6 +22,7 @@ import (
 
 	"github.com/titpetric/vuego"
 
+	"verif/internal/compose"
 	"verif/internal/ev"
 	"verif/internal/hx"
 	"verif/internal/memfs"
@@ -66,9 +67,9 @@ type Loop struct {
 	Bind    string `json:"bind,omitempty"`     // :data-x="<path>" on the looped element
 	// Fill puts v-html / v-text on the looped element itself (its content is then the value
 	// of the path; Body is not rendered). Not on <template>.
-	Fill *Fill `json:"fill,omitempty"`
-	Body    []Node `json:"body,omitempty"`
-	Else    *Else  `json:"else,omitempty"`
+	Fill *Fill  `json:"fill,omitempty"`
+	Body []Node `json:"body,omitempty"`
+	Else *Else  `json:"else,omitempty"`
 }
 
 // Fill is a content directive: Dir "v-html" or "v-text".
@@ -348,12 +349,19 @@ func describe(d Data) string {
 
 // ---------------------------------------------------------------- entry points
 
-func replay(kind string, raw json.RawMessage) error { return run.Decode(raw, check) }
+func replay(kind string, raw json.RawMessage) error {
+	if kind == compose.Kind {
+		return compose.Replay(raw)
+	}
+	return run.Decode(raw, check)
+}
 
 func TestProp(t *testing.T) {
 	rec := ev.New(prop)
 	defer run.Finish(t, rec)
 	run.Witnesses(rec, prop, replay)
+	// cross-feature compositions checked against the shared reference interpreter
+	compose.Family(t, rec, "for")
 
 	shard, shards := run.Shard()
 	n, ok := 0, true
